@@ -41,6 +41,7 @@ ASSUMPTIONS = [
 REQUIRED = ["branches_checked", "paths_checked", "tips_checked", "furcations_checked",
             "node_predicates_checked", "node_branch_checked", "branch_tree_checked",
             "branch_tree_memory_probed", "longest_path_checked", "root_one_child_trees",
+            "derived_trees_checked", "negative_position_handles",
             "tap_get_branches", "tap_from_tree"]
 FLOOR = {"quick": 800, "thorough": 15000}
 SHARDS = {"quick": 8, "thorough": 16}
@@ -51,11 +52,53 @@ def _ids(p):
 
 
 def _exec(ctx, case):
-    from swcgeom.core import BranchTree, Tree
-    from swcgeom.transforms import ToBranchTree, ToLongestPath
+    from swcgeom.core.tree_utils import redirect_tree, sort_tree
 
     spec = G.spec_from_recipe(case["tree"])
     tree = G.build(spec)
+    derive = case.get("derive")
+    if not derive:
+        return _check(ctx, case, tree, spec)
+    # the decomposition of a tree *derived* from one that was already queried (copies carry
+    # whatever the first queries cached) and of a tree edited in place through a node handle
+    n = len(spec["pid"])
+    tree.get_branches(), tree.get_paths(), tree.get_furcations(), tree.get_tips()
+    rng = np.random.default_rng(case["dseed"])
+    if derive == "redirect" and n >= 2:
+        t2 = redirect_tree(tree, int(rng.integers(0, n)))
+    elif derive == "copy-edit" and n >= 3:
+        t2 = tree.copy()
+        pid = np.asarray(t2.pid()).astype(np.int64)
+        ch = topo.children_lists(pid)
+        k = int(rng.integers(1, n))
+        sub = set(topo.descendants(ch, k))
+        cands = [j for j in range(n) if j not in sub and j != pid[k]]
+        if not cands:
+            return
+        t2.node(k).pid = int(cands[int(rng.integers(0, len(cands)))])
+    elif derive == "edit-in-place" and n >= 3:
+        t2 = tree
+        pid = np.asarray(t2.pid()).astype(np.int64)
+        ch = topo.children_lists(pid)
+        k = int(rng.integers(1, n))
+        sub = set(topo.descendants(ch, k))
+        cands = [j for j in range(n) if j not in sub and j != pid[k]]
+        if not cands:
+            return
+        t2.node(k).pid = int(cands[int(rng.integers(0, len(cands)))])
+    elif derive == "sort":
+        t2 = sort_tree(tree)
+    else:
+        return
+    ctx.count("derived_trees_checked")
+    spec2 = {k: np.array(v, copy=True) for k, v in t2.ndata.items() if k != "id"}
+    return _check(ctx, case, t2, spec2)
+
+
+def _check(ctx, case, tree, spec):
+    from swcgeom.core import BranchTree, Tree
+    from swcgeom.transforms import ToBranchTree, ToLongestPath
+
     pid = spec["pid"]
     n = len(pid)
     ch = topo.children_lists(pid)
@@ -131,7 +174,10 @@ def _exec(ctx, case):
         for u in b[1:]:
             br_of[u] = b  # the branch a non-start node lies on
     for v in nodes:
-        nd = tree.node(v)
+        # the same node addressed by position, from the end, or by item access
+        nd = (tree.node(v), tree[v - n], tree.node(v - n), tree[v])[v % 4]
+        if v % 4 in (1, 2):
+            ctx.count("negative_position_handles")
         if bool(nd.is_tip()) != (len(ch[v]) == 0):
             return ctx.violation("is_tip-wrong", f"node {v} with {len(ch[v])} children: is_tip() = "
                                                  f"{nd.is_tip()}", case)
@@ -257,6 +303,9 @@ def run(ctx):
             else:
                 rc = G.random_recipe(rng, max_n=G.size_ladder(ctx, k, 10, 45, 300), extras=0)
             case = {"tree": rc}
+            if k % 3 == 2:
+                case["derive"] = str(rng.choice(["redirect", "copy-edit", "edit-in-place", "sort"]))
+                case["dseed"] = int(rng.integers(0, 2**31 - 1))
             ctx.case(case, nontrivial=rc["n"] >= 3, klass=rc["shape"] + "/" + rc["numbering"])
             execute(ctx, case)
     for k, v in tap.counts.items():
